@@ -13,7 +13,12 @@ from atsim.potentials.config import Configuration              # noqa: E402
 PRE = "[Tabulation]\ntarget : %s\nnr : 12\ncutoff : 5.5\nnrho : 6\ncutoff_rho : 5.0\n\n"
 MODELS = {
     # 1: under-specified EAM / Finnis-Sinclair models: species that appear only in the density section are zero-filled
-    1: dict(targets=["setfl", "DL_POLY_EAM", "excel_eam"], text="""[EAM-Embed]
+    1: dict(targets=["setfl", "DL_POLY_EAM", "excel_eam", "eam_adp"], text="""[EAM-ADP-Dipole]
+Cu-Cu : as.polynomial 0 0.25
+Al-Cu : as.constant 0.5
+[EAM-ADP-Quadrupole]
+Cu-Al : as.polynomial 0.125 1
+[EAM-Embed]
 Cu : as.sqrt -1.0
 [EAM-Density]
 Al : as.exponential 2.0 -1
@@ -311,6 +316,7 @@ def _history_chunk(rng):
         hist = _HIST[hidx]
         rnd = random.Random(seed * 1000 + hidx)
         tabs = {}
+        written = set()
         shared = api_energy_fn()          # the component object models 4 and 5 of this history share
         for step, op in enumerate(hist):
             if op["id"] in API_KIND:
@@ -329,6 +335,7 @@ def _history_chunk(rng):
             tab = tabs[key]
             n += 1
             if op["op"] == "write":
+                written.add(key)
                 data = write(tab, target)
                 if hashlib.sha256(data).hexdigest() != ref["sha"]:
                     excel = target.startswith("excel")
@@ -353,6 +360,17 @@ def _history_chunk(rng):
                         bad.append(("energy-differs", False, False, "history %s: %s at r=%s of model %d gives %s, a fresh process gives %s" % (
                             [(o["op"], o["id"]) for o in hist], name, r, mid, got, (e, f)), hist))
                         break
+        # every model object the history wrote is written once more at its end: a second write() of one object gives the same bytes
+        for key in sorted(written, key=str):
+            mid, target = key
+            ref = _REF["api:" + API_KIND[mid]] if mid in API_KIND else _REF["%d:%s" % key]
+            data = write(tabs[key], target)
+            n += 1
+            if hashlib.sha256(data).hexdigest() != ref["sha"]:
+                excel = target.startswith("excel")
+                same_cells = excel and cells(data) == ref["cells"]
+                bad.append(("output-differs", excel, same_cells, "history %s, then every written model written again: the second write() of model %s for %s differs from the fresh-process reference%s" % (
+                    [(o["op"], o["id"]) for o in hist], mid, target, " (cells are equal: only the container differs)" if same_cells else ""), hist))
     return dict(bad=bad[:10], n=n)
 
 
